@@ -38,7 +38,6 @@ Proof.
   eqb_cases c. repeat (cbn [flat_map app]; rewrite ?neqb by assumption). reflexivity.
 Qed.
 
-Definition quote_free (s : str) : bool := forallb (fun c => negb ((c =? 60) || (c =? 62) || (c =? 34) || (c =? 39))) s.
 
 Lemma html_escape_chr_quote_free c : quote_free (html_escape_chr c) = true.
 Proof. unfold html_escape_chr. eqb_cases c. unfold quote_free. cbn [forallb]. rewrite !neqb by assumption. reflexivity. Qed.
